@@ -1,6 +1,74 @@
 //! Property C04 — degree bounds are enforced by committer and verifier (Marlin, Sonic, IPA).
+use crate::common::*;
+use crate::generic::{self, Scheme};
 use crate::Ctx;
+use ark_bls12_381::Fr;
+use ark_ff::UniformRand;
+use ark_poly::Polynomial;
+use ark_poly_commit::{LabeledPolynomial, PolynomialCommitment};
 
 pub fn run(ctx: &mut Ctx) {
     crate::props_marlin::c04(ctx);
+    open_admission::<generic::Marlin>(ctx);
+    open_admission::<generic::Sonic>(ctx);
+}
+
+/// The PROVER's half of C04: `open` must refuse a polynomial whose degree exceeds its declared bound — also
+/// when it is not the first polynomial of the opening and an earlier polynomial legitimately carries the SAME
+/// bound (a validation remembered per bound would skip it).  `commit` refuses the offender, so its commitment
+/// and state come from committing it honestly under a LARGER enforced bound, relabelled to the small one.
+fn open_admission<S: Scheme>(ctx: &mut Ctx)
+where
+    <S::P as Polynomial<Fr>>::Point: Clone + Ord + std::fmt::Debug,
+{
+    for i in 0..ctx.n(6, 30) {
+        let id = format!("C04/{}/open-admission/{}", S::NAME, i);
+        if !ctx.selected(&id) {
+            continue;
+        }
+        let mut rng = rng_for(ctx.seed, &format!("C04/{}/open-admission", S::NAME), i as u64);
+        let max_degree = 12 + i % 5;
+        let b = 3 + i % 4;
+        let b2 = b + 2;
+        let sizes = generic::Sizes { max_degree, supported: max_degree, num_vars: None };
+        let r = guarded(|| -> Result<Vec<(String, bool)>, String> {
+            let pp = S::PC::setup(max_degree, None, &mut rng).map_err(|e| format!("setup {:?}", e))?;
+            let (ck, _vk) = S::PC::trim(&pp, max_degree, 1, Some(&[b, b2])).map_err(|e| format!("trim {:?}", e))?;
+            let ok1 = LabeledPolynomial::new("ok1".to_string(), S::rand_poly(&mut rng, &sizes, b), Some(b), None);
+            let ok2 = LabeledPolynomial::new("ok2".to_string(), S::rand_poly(&mut rng, &sizes, b - 1), Some(b2), None);
+            let bad = LabeledPolynomial::new("bad".to_string(), S::rand_poly(&mut rng, &sizes, b + 1), Some(b), None);
+            // the offender's commitment and state: committed honestly under the larger enforced bound, relabelled
+            let bad_b2 = LabeledPolynomial::new("bad".to_string(), bad.polynomial().clone(), Some(b2), None);
+            let (comms, sts) = S::PC::commit(&ck, [&ok1, &ok2, &bad_b2], None).map_err(|e| format!("commit {:?}", e))?;
+            let cbad = ark_poly_commit::LabeledCommitment::new("bad".to_string(), comms[2].commitment().clone(), Some(b));
+            let empty = sts[2].clone();
+            let z = S::rand_point(&mut rng, &sizes);
+            let mut out = vec![];
+            // the offender alone, after a polynomial with the same bound, after two, and first
+            let orders: Vec<(&str, Vec<usize>)> = vec![("alone", vec![2]), ("after-same-bound", vec![0, 2]), ("after-two", vec![1, 0, 2]), ("first", vec![2, 0])];
+            for (name, order) in orders {
+                let polys: Vec<&LabeledPolynomial<Fr, S::P>> = order.iter().map(|k| [&ok1, &ok2, &bad][*k]).collect();
+                let cs: Vec<&ark_poly_commit::LabeledCommitment<_>> = order.iter().map(|k| [&comms[0], &comms[1], &cbad][*k]).collect();
+                let ss: Vec<&_> = order.iter().map(|k| [&sts[0], &sts[1], &empty][*k]).collect();
+                let mut sp = generic::fresh_sponge();
+                let answered = matches!(guarded(|| S::PC::open(&ck, polys.clone(), cs.clone(), &z, &mut sp, ss.clone(), None)), Ok(Ok(_)));
+                out.push((name.to_string(), answered));
+            }
+            Ok(out)
+        });
+        match r {
+            Ok(Ok(outs)) => {
+                for (name, answered) in &outs {
+                    if *answered {
+                        ctx.rep.expect_fail(&id, &format!("{}/degree-above-bound-opened/{}", S::NAME, name),
+                            &format!("open answered for a polynomial of degree {} declared with bound {} ({})", b + 1, b, name),
+                            format!("# scheme: {}\n# case: {}\n# seed: {}\n# keys trimmed for bounds [{}, {}]; polynomials ok1 (deg {}, bound {}), ok2 (deg {}, bound {}), bad (deg {}, bound {}); order: {}\n# rerun: .build/cargo/debug/pcv-harness C04 --seed {} --only {}\n",
+                                S::NAME, id, ctx.seed, b, b2, b, b, b - 1, b2, b + 1, b, name, ctx.seed, id));
+                    }
+                }
+                ctx.rep.case(&format!("{} open admission bound {} -> {:?}", S::NAME, b, outs), Some(format!("{}/open-admission/{}", S::NAME, b)));
+            }
+            Ok(Err(e)) | Err(e) => ctx.rep.notes.push(format!("{}: not run ({})", id, e.chars().take(80).collect::<String>())),
+        }
+    }
 }
